@@ -69,11 +69,21 @@ def model_check(module, cfg_path, workdir, workers=16, dump=False, heap="8g", ti
         cmd += ["-coverage", "1"]
     cmd.append(os.path.join(SPEC, module + ".tla"))
     t0 = time.time()
-    try:
-        p = subprocess.run(cmd, cwd=SPEC, stdout=subprocess.PIPE, stderr=subprocess.STDOUT, text=True, timeout=timeout)
-    except subprocess.TimeoutExpired as ex:
+    for attempt in range(3):
+        try:
+            p = subprocess.run(cmd, cwd=SPEC, stdout=subprocess.PIPE, stderr=subprocess.STDOUT, text=True, timeout=timeout)
+        except subprocess.TimeoutExpired as ex:
+            shutil.rmtree(meta, ignore_errors=True)
+            raise TLCError("TLC timeout on %s" % module)
+        if p.returncode not in (-9, 137) or attempt == 2:
+            break
+        # killed from outside (memory pressure while other checks run next to this one): not a result; once more after a pause
         shutil.rmtree(meta, ignore_errors=True)
-        raise TLCError("TLC timeout on %s" % module)
+        os.makedirs(meta, exist_ok=True)
+        for f in (dump_path + ".dump",) if dump else ():
+            if os.path.exists(f):
+                os.unlink(f)
+        time.sleep(30 * (attempt + 1))
     shutil.rmtree(meta, ignore_errors=True)
     out = p.stdout
     m = None
@@ -148,11 +158,17 @@ def _validate_chunk(args):
     env = dict(os.environ)
     env["TRACE"] = trace_path
     cmd = _java(heap) + ["-noGenerateSpecTE", "-workers", "1", "-metadir", meta, "-config", cfg, os.path.join(SPEC, module + ".tla")]
-    try:
-        p = subprocess.run(cmd, cwd=SPEC, env=env, stdout=subprocess.PIPE, stderr=subprocess.STDOUT, text=True, timeout=timeout)
-    except subprocess.TimeoutExpired:
-        shutil.rmtree(meta, ignore_errors=True)
-        raise TLCError("trace validation timeout (%s)" % trace_path)
+    for attempt in range(3):
+        try:
+            p = subprocess.run(cmd, cwd=SPEC, env=env, stdout=subprocess.PIPE, stderr=subprocess.STDOUT, text=True, timeout=timeout)
+        except subprocess.TimeoutExpired:
+            shutil.rmtree(meta, ignore_errors=True)
+            raise TLCError("trace validation timeout (%s)" % trace_path)
+        if p.returncode not in (-9, 137) or attempt == 2:
+            break
+        shutil.rmtree(meta, ignore_errors=True)       # killed from outside (memory pressure): once more after a pause
+        os.makedirs(meta, exist_ok=True)
+        time.sleep(30 * (attempt + 1))
     shutil.rmtree(meta, ignore_errors=True)
     m = _RES.search(p.stdout)
     if not m:
